@@ -528,6 +528,58 @@ func genRead(t *rapid.T) ReadCase {
 		}
 		c.Groups = append(c.Groups, grp)
 	}
+	// the 24-bit length field in the read direction: one case in N ends with a message of up to 2^24-1 bytes in a
+	// conforming chunking (after a Set Chunk Size that keeps the chunk count sane), interleaved with a short message on
+	// another chunk stream; header format 0 or - when the chunk stream has history - 1
+	if n := hugeOneIn() / 4; rapid.IntRange(0, n-1).Draw(t, "hugeRead") == n/2 { // mid-range value: rapid favours the bounds
+		if cs < 128 {
+			ns := rapid.SampledFrom([]int{128, 4096, 60000, 65536}).Draw(t, "hugeChunkSize")
+			c.Groups = append(c.Groups, Group{Steps: []Step{{Kind: "scs", NewSize: ns, M: M{Csid: 2, Type: rtmpref.TypeSetChunkSize, Len: 4}}}})
+			cs = ns
+		}
+		var grp Group
+		for i, csid := range csids {
+			if i > 1 {
+				break
+			}
+			st := mem[csid]
+			if st == nil {
+				st = &wmem{}
+				mem[csid] = st
+			}
+			m := M{Csid: csid, Type: rapid.SampledFrom([]uint8{8, 9, 18}).Draw(t, "hugeType"), Seed: rapid.Uint32().Draw(t, "hugeSeed")}
+			if i == 0 {
+				m.Len = rapid.OneOf(rapid.SampledFrom([]int{0xFFFFFF, 0xFFFFFE, 0x800000, 0x100000}), rapid.IntRange(0x100000, 0xFFFFFF)).Draw(t, "hugeLenValue")
+			} else {
+				m.Len = rapid.IntRange(0, 3*cs).Draw(t, "besideHugeLen")
+			}
+			wish := 0
+			if st.have && rapid.Bool().Draw(t, "hugeFmt1") {
+				wish = 1
+			}
+			if wish == 0 {
+				m.Msid = rapid.OneOf(rapid.Just(uint32(1)), rapid.Uint32Range(0, 0x7FFFFFFF)).Draw(t, "msid")
+				m.Ts = tsGen.Draw(t, "ts")
+			} else {
+				m.Msid = st.msid
+				m.Ts = st.ts + deltaGen.Draw(t, "delta")
+				if m.Ts < st.ts {
+					wish = 0
+				}
+			}
+			field := m.Ts
+			if wish != 0 {
+				field = m.Ts - st.ts
+			}
+			*st = wmem{have: true, ts: m.Ts, field: field, length: m.Len, typeID: m.Type, msid: m.Msid}
+			grp.Steps = append(grp.Steps, Step{Kind: "msg", M: m, Fmt: uint8(wish)})
+		}
+		np := rapid.IntRange(0, 12).Draw(t, "npicks")
+		for i := 0; i < np; i++ {
+			grp.Picks = append(grp.Picks, rapid.IntRange(0, 7).Draw(t, "pick"))
+		}
+		c.Groups = append(c.Groups, grp)
+	}
 	return c
 }
 
@@ -681,6 +733,9 @@ func classifyRead(c ReadCase) (bool, []string) {
 				}
 				if s.M.Len == 0 {
 					labels = append(labels, "len=0")
+				}
+				if s.M.Len >= 0x100000 {
+					labels = append(labels, "len>=2^20-read")
 				}
 			}
 		}
